@@ -38,6 +38,9 @@ def run(ctx):
             r["failures"] += fails
         r["evaluations"] += n_int
         results.append(r)
+        # the same series in the other forms the property names (lists / tuples with None or NaN, object arrays and
+        # columns holding None, masked arrays, Series, dask, narrow integers): one flag per element, the same flags
+        results.append(cc.carrier_block(ad, cs, tier, rng))
     n_hist, fails, samples = cc.interleaved_history(reg, tier, rng, 60 if tier == "quick" else 600)
     results[0]["failures"] += fails
     results[0]["evaluations"] += n_hist
